@@ -88,6 +88,8 @@ type PathState struct {
 	allocLimitOn bool
 
 	hashBufs map[*Obj]*[]*Term
+	wire     map[int]*wireEntry
+	jsonTab  map[string]*wireEntry
 
 	nondet bool // the path uses an over-approximating stub: no sample prediction
 
@@ -678,6 +680,15 @@ func (in *Interp) check(c *Term, label string) {
 		}
 	default:
 		P.unknowns++
+		if in.opts.Verbose > 0 {
+			var cs []string
+			for _, ir := range P.inputs {
+				if ir.Kind == "conc" {
+					cs = append(cs, ir.Name+"="+ir.Conc.String())
+				}
+			}
+			fmt.Fprintf(os.Stderr, "unknown check %q choices: %s\n", label, strings.Join(cs, " "))
+		}
 		in.noteInconclusive("check " + label + ": solver unknown")
 	}
 	in.assume(c)
